@@ -270,7 +270,7 @@ func runC04(p *Prog, r *Report) {
 			}
 		}
 		st := rp.Ev("store", "*.closed").Arg(0, "true")
-		r.Check(len(st) == 1 && len(st[0].Guard) == 0 && st.AllHeld(reqMu), R, "RemovePipe/marks-pipe-closed", st.Pos(p), "the departing pipe is marked closed unconditionally, under the lock", "RemovePipe does not mark the departing pipe closed on every path: sendCtx puts the dead pipe back on the ready list and the (re)transmission handed to it is lost: "+guardsOf(st))
+		r.Check(len(st) == 1 && st[0].Unconditional() && st.AllHeld(reqMu), R, "RemovePipe/marks-pipe-closed", st.Pos(p), "the departing pipe is marked closed unconditionally, under the lock", "RemovePipe does not mark the departing pipe closed on every path: sendCtx puts the dead pipe back on the ready list and the (re)transmission handed to it is lost: "+guardsOf(st))
 	}
 	q.ListRemoval(R, "RemovePipe/leaves-ready-list", rp, "recv.readyQ", reqMu, "RemovePipe does not take the departing pipe out of the ready list by shortening it: a dead pipe is scheduled and the (re)transmission handed to it is lost")
 	// `queued` says "this context is in sendQ": every change of the queue changes the flag of the
